@@ -224,7 +224,7 @@ def csParams (q : Quirks) : Params := { hasWeigher := true, w := fun _ v => v, q
 updates it to 5, then thread 2 updates it to 2 (the map now holds 2); thread 2 enqueues first,
 thread 1 last; then maintenance runs.  (The clock is past the periodic deadline.) -/
 def d10Interleaving : List Ev :=
-  [.tick 600000000, .insMap 1 1 1, .enq 1, .maint 0, .insMap 1 1 5, .insMap 2 1 2, .enq 2, .enq 1,
+  [.tick Gen.PAST_SYNC_INTERVAL_NS, .insMap 1 1 1, .enq 1, .maint 0, .insMap 1 1 5, .insMap 2 1 2, .enq 2, .enq 1,
    .maint 0]
 
 /-- What a path ends in: `([entry_count, weighted_size, |write queue|, threads holding
